@@ -461,6 +461,20 @@ pub fn rules(d: &Decl) -> Vec<Violation> {
                     }
                     out.extend(vs);
                 }
+                // "more than one flatten field": the fields of one struct - a struct variant's too
+                if let VBody::Named(nf) = &var.body {
+                    let fl: Vec<R> = nf.iter().filter_map(|f| effective(&flat(&f.attrs), "flatten").map(|o| o.range)).collect();
+                    if fl.len() > 1 {
+                        out.push(Violation {
+                            rule: "more-than-one-flatten",
+                            stage: 2,
+                            loci: fl,
+                            unspanned_ok: false,
+                            tolerated: vec![],
+                            demanded: own_clean && fields_clean,
+                        });
+                    }
+                }
                 let clean = own_clean && fields_clean;
                 if let Some(w) = effective(&vo, "word") {
                     if w.on && unit {
@@ -876,6 +890,33 @@ fn enumerate_variant_and_container(c: &mut Collector) {
                     judge(&d, "enumerated-variant-options", c);
                 }
             }
+        }
+    }
+    // flatten fields inside struct variants: none, one, two, three
+    for n_flat in 0..4usize {
+        for extra_plain in [false, true] {
+            let mut fs = vec![];
+            for k in 0..n_flat {
+                let mut f = plain_field(["fa", "fb", "fc"][k]);
+                f.ty = "X".into();
+                f.attrs = vec![vec![occ("flatten", "flatten", true)]];
+                fs.push(f);
+            }
+            if extra_plain {
+                fs.insert(fs.len().min(1), plain_field("p"));
+            }
+            let mut d = Decl {
+                tr: Tr::Meta,
+                cattrs: vec![],
+                generics: String::new(),
+                body: Body::Enum(vec![
+                    VariantSpec { name: "First".into(), attrs: vec![], body: VBody::Named(fs), range: (0, 0) },
+                    VariantSpec { name: "Second".into(), attrs: vec![], body: VBody::Unit, range: (0, 0) },
+                ]),
+                src: String::new(),
+            };
+            render(&mut d);
+            judge(&d, "enumerated-variant-flatten", c);
         }
     }
     // options on the forwarded magic fields (`attrs`, `data`): only `with` is known, once
